@@ -27,6 +27,43 @@ fn inside_ideal(p: Point, cx: i64, cy: i64, rx: i64, ry: i64, shrink: i64) -> bo
     b * b * dx * dx + a * a * dy * dy < a * a * b * b
 }
 
+type PSet = std::collections::BTreeSet<(i32, i32)>;
+
+/// The shape as every public observation sees it: contains() over box+margin, points(), and the fill-only styled
+/// draw() (native and draw_iter-only target) and pixels().  C18 is about the shape however it is observed.
+fn observers(r: &RoundedRectangle, margin: i32) -> Vec<(&'static str, PSet)> {
+    use crate::util::{IterTarget, NativeTarget};
+    use embedded_graphics::{pixelcolor::Gray8, primitives::PrimitiveStyle, Drawable, Pixel};
+    let (x0, y0, x1, y1) = window(&r.rectangle, margin);
+    let mut c = PSet::new();
+    for y in y0..y1 {
+        for x in x0..x1 {
+            if r.contains(Point::new(x, y)) {
+                c.insert((y, x));
+            }
+        }
+    }
+    let pts: PSet = r.points().map(|p| (p.y, p.x)).collect();
+    let styled = r.into_styled(PrimitiveStyle::with_fill(Gray8::new(9)));
+    let big = Rectangle::new(Point::new(-3000, -3000), Size::new(6000, 6000));
+    let mut nt = NativeTarget::<Gray8>::new(big);
+    styled.draw(&mut nt).unwrap();
+    let mut it = IterTarget::<Gray8>::new(big);
+    styled.draw(&mut it).unwrap();
+    let px: PSet = styled.pixels().map(|Pixel(p, _)| (p.y, p.x)).collect();
+    vec![
+        ("contains()", c),
+        ("points()", pts),
+        ("fill-only draw() on a native target", nt.map.keys().copied().collect()),
+        ("fill-only draw() on a draw_iter-only target", it.map.keys().copied().collect()),
+        ("fill-only pixels()", px),
+    ]
+}
+
+fn outside_box(r: &Rectangle, set: &PSet) -> Option<(i32, i32)> {
+    set.iter().copied().find(|(y, x)| !r.contains(Point::new(*x, *y)))
+}
+
 pub fn run(suite: &str, a: &[&str]) -> Option<String> {
     Some(match suite {
         // ties the model's private copy of Ellipse::contains (rr_ellipse_contains) to the real Ellipse
@@ -96,17 +133,15 @@ pub fn run(suite: &str, a: &[&str]) -> Option<String> {
         "p_rr_zero" => {
             let rect = crate::util::rc(a[0], a[1], a[2], a[3]);
             let r = RoundedRectangle::with_equal_corners(rect, Size::zero());
-            let (x0, y0, x1, y1) = window(&rect, 2);
-            for y in y0..y1 {
-                for x in x0..x1 {
-                    let p = Point::new(x, y);
-                    if r.contains(p) != rect.contains(p) {
-                        return Some(format!("FAIL zero radii: contains differs from Rectangle at {:?}", p));
-                    }
+            let want: PSet = rect.points().map(|p| (p.y, p.x)).collect();
+            for (name, set) in observers(&r, 2) {
+                if set != want {
+                    let d = set.symmetric_difference(&want).next().copied().unwrap();
+                    return Some(format!("FAIL zero radii: {} differs from the Rectangle at ({},{})", name, d.1, d.0));
                 }
             }
             if !r.points().eq(rect.points()) {
-                return Some("FAIL zero radii: points() differs from Rectangle::points()".into());
+                return Some("FAIL zero radii: points() differs from Rectangle::points() (order)".into());
             }
             format!("OK {}", rect.size.width * rect.size.height)
         }
@@ -119,14 +154,19 @@ pub fn run(suite: &str, a: &[&str]) -> Option<String> {
             let r = RoundedRectangle::with_equal_corners(rect, Size::new(ra, rb));
             let e = Ellipse::new(rect.top_left, rect.size);
             let (x0, y0, x1, y1) = window(&rect, 2);
-            let mut n = 0;
+            let mut want = PSet::new();
             for yy in y0..y1 {
                 for xx in x0..x1 {
-                    let p = Point::new(xx, yy);
-                    if r.contains(p) != e.contains(p) {
-                        return Some(format!("FAIL half radii: contains differs from Ellipse at {:?} (rrect {})", p, r.contains(p)));
+                    if e.contains(Point::new(xx, yy)) {
+                        want.insert((yy, xx));
                     }
-                    if r.contains(p) { n += 1; }
+                }
+            }
+            let n = want.len();
+            for (name, set) in observers(&r, 2) {
+                if set != want {
+                    let d = set.symmetric_difference(&want).next().copied().unwrap();
+                    return Some(format!("FAIL half radii: {} differs from Ellipse::contains at ({},{}) (rrect {})", name, d.1, d.0, set.contains(&d)));
                 }
             }
             if !r.points().eq(e.points()) {
@@ -145,19 +185,24 @@ pub fn run(suite: &str, a: &[&str]) -> Option<String> {
             let r = rr(a);
             let (x0, y0, x1, y1) = window(&r.rectangle, 1);
             let mut n = 0;
-            for y in y0..y1 {
-                let mut state = 0; // 0 before, 1 in run, 2 after
-                for x in x0..x1 {
-                    let c = r.contains(Point::new(x, y));
-                    if c { n += 1; }
-                    state = match (state, c) { (0, true) => 1, (1, false) => 2, (2, true) => return Some(format!("FAIL row {} not contiguous at x={}", y, x)), (s, _) => s };
+            for (name, set) in observers(&r, 1) {
+                if let Some((y, x)) = outside_box(&r.rectangle, &set) {
+                    return Some(format!("FAIL {} has ({},{}) outside the bounding box", name, x, y));
                 }
-            }
-            for x in x0..x1 {
-                let mut state = 0;
+                n = set.len();
                 for y in y0..y1 {
-                    let c = r.contains(Point::new(x, y));
-                    state = match (state, c) { (0, true) => 1, (1, false) => 2, (2, true) => return Some(format!("FAIL column {} not contiguous at y={}", x, y)), (s, _) => s };
+                    let mut state = 0; // 0 before, 1 in run, 2 after
+                    for x in x0..x1 {
+                        let c = set.contains(&(y, x));
+                        state = match (state, c) { (0, true) => 1, (1, false) => 2, (2, true) => return Some(format!("FAIL {}: row {} not contiguous at x={}", name, y, x)), (s, _) => s };
+                    }
+                }
+                for x in x0..x1 {
+                    let mut state = 0;
+                    for y in y0..y1 {
+                        let c = set.contains(&(y, x));
+                        state = match (state, c) { (0, true) => 1, (1, false) => 2, (2, true) => return Some(format!("FAIL {}: column {} not contiguous at y={}", name, x, y)), (s, _) => s };
+                    }
                 }
             }
             format!("OK {}", n)
@@ -182,23 +227,29 @@ pub fn run(suite: &str, a: &[&str]) -> Option<String> {
             };
             let quads = [q(c.top_left, true, true), q(c.top_right, false, true), q(c.bottom_right, false, false), q(c.bottom_left, true, false)];
             let mut n = 0;
-            for y in y0..y1 {
-                for x in x0..x1 {
-                    let p = Point::new(x as i32, y as i32);
-                    let inb: Vec<_> = quads.iter().filter(|k| k.0 <= x && x < k.1 && k.2 <= y && y < k.3).collect();
-                    let got = r0.contains(p);
-                    if inb.is_empty() {
-                        if !got { return Some(format!("FAIL point {:?} outside every corner box is not contained", p)); }
-                        continue;
-                    }
-                    n += 1;
-                    for k in &inb {
-                        if got && !inside_ideal(p, k.4, k.5, k.6, k.7, 0) {
-                            return Some(format!("FAIL {:?} contained but its centre is outside the ideal corner ellipse", p));
+            for (name, set) in observers(&r0, 1) {
+                if let Some((y, x)) = outside_box(&r.rectangle, &set) {
+                    return Some(format!("FAIL {} has ({},{}) outside the bounding box", name, x, y));
+                }
+                n = 0;
+                for y in y0..y1 {
+                    for x in x0..x1 {
+                        let p = Point::new(x as i32, y as i32);
+                        let inb: Vec<_> = quads.iter().filter(|k| k.0 <= x && x < k.1 && k.2 <= y && y < k.3).collect();
+                        let got = set.contains(&(p.y, p.x));
+                        if inb.is_empty() {
+                            if !got { return Some(format!("FAIL {}: point {:?} outside every corner box is not in the shape", name, p)); }
+                            continue;
                         }
-                    }
-                    if !got && inb.iter().all(|k| k.6 >= 1 && k.7 >= 1 && inside_ideal(p, k.4, k.5, k.6, k.7, 1)) {
-                        return Some(format!("FAIL {:?} is more than half a pixel inside every corner ellipse but not contained", p));
+                        n += 1;
+                        for k in &inb {
+                            if got && !inside_ideal(p, k.4, k.5, k.6, k.7, 0) {
+                                return Some(format!("FAIL {}: {:?} is in the shape but its centre is outside the ideal corner ellipse", name, p));
+                            }
+                        }
+                        if !got && inb.iter().all(|k| k.6 >= 1 && k.7 >= 1 && inside_ideal(p, k.4, k.5, k.6, k.7, 1)) {
+                            return Some(format!("FAIL {}: {:?} is more than half a pixel inside every corner ellipse but not in the shape", name, p));
+                        }
                     }
                 }
             }
